@@ -431,7 +431,7 @@ func runC10(c *Check, a *Analysis) {
 		}
 		fn := st.Fn
 		for _, m := range p.mapOps("Conn", "streams") {
-			if m.Kind != "range" || m.Fn != fn {
+			if m.Kind != "range" || !p.sameFn(m.Fn, fn) {
 				continue
 			}
 			nr++
